@@ -577,6 +577,38 @@ Proof.
   unfold known_cancel_once. apply run_ghost_off; auto.
 Qed.
 
+(* ---- reload *)
+
+Lemma reload_inert : reload_prunes v = false -> forall st l,
+  csm (step E v st (Reload l)) = csm st /\ cl (step E v st (Reload l)) = cl st /\
+  gcancel (step E v st (Reload l)) = gcancel st /\
+  (forall s c, sv (step E v st (Reload l)) s = HeldBy c <-> sv st s = HeldBy c).
+Proof.
+  intros RP st l. cbn. rewrite RP. repeat split; try apply retire_held.
+Qed.
+
+Lemma reloads_inert : reload_prunes v = false -> forall ls st,
+  csm (fold_left (step E v) (map Reload ls) st) = csm st /\
+  (forall s c, sv (fold_left (step E v) (map Reload ls) st) s = HeldBy c <-> sv st s = HeldBy c).
+Proof.
+  intros RP. induction ls as [|l r IH]; intros st; cbn [map fold_left].
+  - split; [reflexivity|tauto].
+  - destruct (IH (step E v st (Reload l))) as [A B].
+    destruct (reload_inert RP st l) as (C & _ & _ & D).
+    split; [congruence|]. intros s c. rewrite B. apply D.
+Qed.
+
+(** The entry of a holder survives any number of reloads: what its key does, and who borrows
+    what, is the same after them as before. *)
+Lemma holder_survives_reloads : reload_prunes v = false -> forall ops ls,
+  (forall k, cancel_out (run E v (ops ++ map Reload ls)) k = cancel_out (run E v ops) k) /\
+  (forall s c, sv (run E v (ops ++ map Reload ls)) s = HeldBy c <-> sv (run E v ops) s = HeldBy c).
+Proof.
+  intros RP ops ls. unfold run. rewrite fold_left_app.
+  destruct (reloads_inert RP ls (fold_left (step E v) ops init)) as [A B].
+  split; auto. intros k. unfold cancel_out. rewrite A. reflexivity.
+Qed.
+
 End Invariants.
 
 (* ------------------------------------------------------------------ witnesses *)
@@ -597,13 +629,13 @@ Qed.
     Whatever the other switch is. *)
 Definition window_ops : list op := [Checkout 0 0; ExitDropGuard 0 true; Checkout 1 0].
 
-Lemma exit_window_refuted : forall cd,
+Lemma exit_window_refuted : forall cd rp,
   exists ops c1 c2 s, c1 <> c2 /\ key ex_env c1 <> key ex_env c2 /\
-    sv (run ex_env (mkVariant cd false) ops) s = HeldBy c2 /\
-    cphase (cl (run ex_env (mkVariant cd false) ops) c1) = Exiting /\
-    cancel_out (run ex_env (mkVariant cd false) ops) (key ex_env c1) = Contact (tgt ex_env s).
+    sv (run ex_env (mkVariant cd false rp) ops) s = HeldBy c2 /\
+    cphase (cl (run ex_env (mkVariant cd false rp) ops) c1) = Exiting /\
+    cancel_out (run ex_env (mkVariant cd false rp) ops) (key ex_env c1) = Contact (tgt ex_env s).
 Proof.
-  intros cd. exists window_ops, 0, 1, 0. destruct cd; vm_compute; repeat split; try discriminate; reflexivity.
+  intros cd rp. exists window_ops, 0, 1, 0. destruct cd, rp; vm_compute; repeat split; try discriminate; reflexivity.
 Qed.
 
 (** The cancel-once defect of "the drop of the value that served a CancelRequest removes the key
@@ -612,11 +644,22 @@ Qed.
     holds s0.  Whatever the other switch is. *)
 Definition once_ops : list op := [Checkout 0 0; Cancel (key ex_env 0); CancelDrop (key ex_env 0)].
 
-Lemma cancel_once_refuted : forall ef,
-  exists ops c s, sv (run ex_env (mkVariant true ef) ops) s = HeldBy c /\
-    outcomes ex_env (mkVariant true ef) ops = [Contact (tgt ex_env s)] /\
-    cancel_out (run ex_env (mkVariant true ef) ops) (key ex_env c) = Silent.
-Proof. intros ef. exists once_ops, 0, 0. destruct ef; vm_compute; repeat split; reflexivity. Qed.
+Lemma cancel_once_refuted : forall ef rp,
+  exists ops c s, sv (run ex_env (mkVariant true ef rp) ops) s = HeldBy c /\
+    outcomes ex_env (mkVariant true ef rp) ops = [Contact (tgt ex_env s)] /\
+    cancel_out (run ex_env (mkVariant true ef rp) ops) (key ex_env c) = Silent.
+Proof. intros ef rp. exists once_ops, 0, 0. destruct ef, rp; vm_compute; repeat split; reflexivity. Qed.
+
+(** A reload that prunes the map by address (a mutant; the code does not do this): c0 runs a
+    statement on s0, the configuration is reloaded so that s0's address leaves it, and a
+    CancelRequest with c0's key is silently ignored although c0 still borrows s0 (the old pool's
+    connection lives until the transaction ends).  Whatever the other switches are. *)
+Definition reload_ops : list op := [Checkout 0 0; Reload [0]].
+
+Lemma reload_prune_refuted : forall cd ef,
+  exists ops c s, sv (run ex_env (mkVariant cd ef true) ops) s = HeldBy c /\
+    cancel_out (run ex_env (mkVariant cd ef true) ops) (key ex_env c) = Silent.
+Proof. intros cd ef. exists reload_ops, 0, 0. destruct cd, ef; vm_compute; split; reflexivity. Qed.
 
 (* ------------------------------------------------------------------ the code as it is *)
 
